@@ -14,7 +14,10 @@ from vlib import core
 
 LEVEL = "proof"
 FAMILY = "ser"
-ENCODINGS = ["UTF-8", "UTF-16", "ISO-8859-1", "US-ASCII"]
+ENCODINGS = ["UTF-8", "UTF-16", "ISO-8859-1", "US-ASCII", "UTF-32", "UTF8"]
+# "UTF-32" and the alias "UTF8" are not recognised by name by XalanXMLSerializerFactory: they go through the
+# transcoder-backed XalanOtherEncodingWriter with Xerces' built-in UCS-4 / UTF-8 transcoders, the only modelled
+# configurations in which a surrogate pair reaches XalanOtherEncodingWriter::write(XalanUnicodeChar)
 VERSIONS = ["1.0", "1.1"]
 
 
@@ -403,6 +406,16 @@ def model_bytes(enc, units):
         b = bytearray(b"\xff\xfe")
         for u in units:
             b += bytes((u & 0xFF, (u >> 8) & 0xFF))
+        return bytes(b)
+    if enc in ("UTF-32", "UTF8"):
+        cps = code_points(units)
+        if cps is None:
+            return None
+        if enc == "UTF8":
+            return "".join(chr(c) for c in cps).encode("utf-8", "surrogatepass")
+        b = bytearray()
+        for c in cps:
+            b += c.to_bytes(4, "little")     # Xerces XMLUCS4Transcoder: host byte order, no BOM
         return bytes(b)
     if any(u > 0xFF for u in units):
         return None
